@@ -1,52 +1,132 @@
-"""C31 (BOUNDED stand-in, not a proof): run-time-checked contracts on the real path normalisation.
+"""C31: (1) Verus unit on the real text of erg_common::cheap_canonicalize_path over an abstract std::path (a path = the component sequence
+std yields for it): the result is the canonical form of what the path denotes lexically; lemmas: idempotent, injective on denotations,
+leading `..` of a relative path kept. (2) BOUNDED stand-in (not counted): run-time-checked contracts on the real path normalisation.
 
 std::path::Components is not expressible in Verus and a Kani harness over 4 symbolic path bytes did not finish in 15 minutes,
 so the contracts are executable predicates (replay/src/c31.rs) checked on EVERY path of up to N components from
 {".", "..", "a", "b"}, relative and absolute (N = 8, the property's own bound)."""
 import json
+import os
 import subprocess
 import time
 
-from vlib.snippet import Undecided
+from vlib.snippet import Snippet, Undecided
 from vlib.extract import Source
+from vlib.verus_unit import VerusUnit
+from vlib import rules
+
+HERE = os.path.dirname(os.path.abspath(__file__))
+
+WF_AT = """assert(comps_wf(path@.take(K))) by { assert forall|i: int| 0 <= i < path@.take(K).len() implies match #[trigger] path@.take(K)[i] { Component::Prefix(_) => i == 0, Component::RootDir => i == 0 || (i == 1 && path@.take(K)[0] is Prefix), Component::CurDir => i == 0, _ => true } by { assert(path@.take(K)[i] == path@[i]); if i == 1 { assert(path@.take(K)[0] == path@[0]); } } }"""
 
 
-def run(run, replay=None):
+def build_verus(run):
+    src = Source(run.repo, 'crates/erg_common/lib.rs')
+    unit = VerusUnit('C31', run.scratch)
+    unit.raw_file(os.path.join(HERE, 'prelude.rs'))
+    unit.raw("verus! {\n")
+    for probe in (False, True):
+        f = Snippet(src.fn('cheap_canonicalize_path'), 'vacuity-probe cheap_canonicalize_path' if probe else 'cheap_canonicalize_path')
+        rules.strip_vis_attrs(f)
+        f.rw('R5', r'\(path: &Path\) -> PathBuf', '(path: &PPath) -> PPath', expect=1)
+        f.rw('R4', r'path\.components\(\)\.peekable\(\)', 'w_components(path)', expect=1)
+        f.rw('R4', r'if let Some\((\w+) @ Component::Prefix\(\.\.\)\) = components\.peek\(\)\.cloned\(\) \{', r'if let Some(\1) = components.w_peek_if_prefix() {', expect=1)
+        f.rw('R5', r'PathBuf::from\((\w+)\.as_os_str\(\)\)', r'PPath::w_from_comp(\1)', expect=1)
+        f.rw('R5', r'PathBuf::new\(\)', 'PPath::new()', expect=1)
+        # `for x in iter { .. }` is `loop { match iter.next() { None => break, Some(x) => { .. } } }` (R11, written with is_none/unwrap)
+        f.rw('R11', r'for (\w+) in components \{', r'loop {\n        let verif_next = components.next(); if verif_next.is_none() { break; }\n        let \1 = verif_next.unwrap();', expect=1)
+        rules.aborts(f)
+        f.rw('R4', r'\bret\.push\((\w+)\.as_os_str\(\)\)', r'ret.w_push_comp(\1)', expect='*')
+        f.rw('R4', r'\bret\.push\((\w+)\)', r'ret.w_push_normal(\1)', expect='*')
+        f.rw('R4', r'\bret\.components\(\)\.next_back\(\)', 'ret.w_last()', expect='*')
+        f.rw('R4', r'\bret\.pop\(\)', 'ret.w_pop()', expect='*')
+        if probe:
+            f.rename_fn('cheap_canonicalize_path__vacuity_probe')
+            run.extra.setdefault('vacuity_probe_labels', []).append(f.label)
+        f.contract("requires comps_wf(path@),   // what std::path::Components yields\n    ensures " + ("false," if probe else "res@ == canon(den(path@)), den_wf(den(path@)),   // the canonical form of what the path denotes"))
+        f.insert_at(r'\bloop \{', """    proof {
+        let k = components.pos as int;
+        lemma_den_wf(path@.take(k));
+        if k == 1 { assert(path@.take(1)[0] == path@[0]); assert(canon(den(path@.take(1))) =~= seq![path@[0]]); }
+        else { assert(canon(den0()) =~= Seq::<Component>::empty()); }
+    }""", where='before')
+        f.loop_spec(0, """invariant
+            comps_wf(path@), components.v@ == path@, components.pos <= path@.len(),
+            ret@ == canon(den(path@.take(components.pos as int))),
+            components.pos == 0 ==> (path@.len() == 0 || !(path@[0] is Prefix)),
+        ensures components.pos == path@.len(), ret@ == canon(den(path@.take(components.pos as int))),
+        decreases path@.len() - components.pos,""")
+        f.insert_at(r'= verif_next\.unwrap\(\);', """        proof {
+            let k = components.pos as int - 1;
+            lemma_den_take(path@, k);
+            %s
+            lemma_den_wf(path@.take(k));
+            let d = den(path@.take(k));
+            lemma_canon_parent(d);
+            assert(path@[k] == component);
+            match component {
+                Component::Normal(n) => { lemma_canon_normal(d, n); }
+                Component::RootDir => {
+                    if k == 1 { assert(path@.take(1)[0] == path@[0]); }
+                    lemma_canon_root(d);
+                }
+                _ => {}
+            }
+        }""" % WF_AT.replace('K', 'k'), where='after')
+        f.insert_before_tail("    proof { assert(path@.take(path@.len() as int) =~= path@); lemma_den_wf(path@); }")
+        unit.add(f)
+    unit.raw("} // verus!\n")
+    run.sample({"function": "cheap_canonicalize_path", "ensures": "for every component sequence std::path can yield: result == canon(den(path)) - [prefix][root] + `..` x ups + names - where den is the lexical denotation (prefix, rooted, steps up, names); never reaches unreachable!(); PathBuf::push is never handed a root that would replace the path; terminates"})
+    run.sample({"lemma": "lemma_idempotent / lemma_injective / lemma_leading_parents", "ensures": "canon(den(canon(den(s)))) == canon(den(s)); equal canonical forms => equal denotations (only paths naming the same file are identified); k leading `..` of a relative path give ups >= k and the canonical form begins with `..` x ups"})
+    return unit
+
+
+def explore_paths(run):
+    """BOUNDED stand-in (not counted): run-time-checked contracts on the real cheap_canonicalize_path / normalize_path /
+    NormalizedPathBuf::new for every path of up to N components."""
     from vlib import replay as rp
-    lib = Source(run.repo, 'crates/erg_common/lib.rs')
-    pu = Source(run.repo, 'crates/erg_common/pathutil.rs')
-    run.functions.extend([lib.fn('cheap_canonicalize_path').describe(), lib.fn('normalize_path').describe(),
-                          pu.fn('new', impl=r'NormalizedPathBuf').describe()])
     binary = rp.build(run, 'c31', deps=('erg_common',))
     n = 8 if run.tier != 'thorough' else 10
-    run.level = 'exploration'
-    t0 = time.time()
     p = subprocess.run([binary, str(n)], capture_output=True, text=True, timeout=7200)
     try:
         js = json.loads(p.stdout.strip().split('\n')[-1])
     except Exception:
-        raise Undecided("c31 exploration produced no result: " + p.stderr[-400:])
-    run.solver_time_s = time.time() - t0
-    kinds = {}
+        return {"found": False, "note": "c31 exploration produced no result: " + p.stderr[-400:]}
+    findings = []
     for v in js["violations"]:
         kind = v.split(':')[0][:60]
-        if kind in kinds:
+        if any(f["key"] == kind for f in findings):
             continue
-        kinds[kind] = v
         path = v.split('"')[1] if '"' in v else ''
-        run.add_obligation("path normalisation|contract|" + kind, 'runtime-contract', False, detail={"msg": v},
-                           cex={"found": True, "how": "exhaustive enumeration of component lists on the real NormalizedPathBuf::new / cheap_canonicalize_path",
-                                "input": {"path": path}, "real_result": v, "oracle": "lexical resolution of the path (independent reference in replay/src/c31.rs)",
-                                "verdict": v.split(':')[0], "replay_cmd": "%s %d" % (binary, n)})
-    if not js["violations"]:
-        run.add_obligation("all paths of up to %d components" % n, 'runtime-contract', True, cmd="%s %d" % (binary, n))
-    run.bounded_note = "all paths of up to %d components over {., .., a, b}, relative and absolute; nothing beyond that bound is covered" % n
-    run.extra.update({
-        "evaluations": js["paths"],
-        "distinct_nontrivial": js["distinct_normal_forms"],
-        "rule": "every path made of up to %d components from {., .., a, b}, relative and absolute. Checked on each: NormalizedPathBuf::new and cheap_canonicalize_path/normalize_path are idempotent; the number of leading `..` of a relative path is preserved; two paths with the same normal form have the same lexical resolution (same file). distinct_nontrivial = distinct normal forms produced." % n,
-        "samples": js["samples"] or ["(none)"],
-        "exhaustive": True,
-    })
-    run.samples = js["samples"]
-    run.assumptions.append("BOUNDED: exhaustive only up to the stated number of components over a 4-symbol alphabet; symlinks, case-insensitive file systems and Windows prefixes are not exercised.")
+        findings.append({"key": kind, "how": "exhaustive enumeration of component lists on the real NormalizedPathBuf::new / cheap_canonicalize_path",
+                         "input": {"path": path}, "real_result": v, "oracle": "lexical resolution of the path (independent reference in replay/src/c31.rs)",
+                         "verdict": v[:200], "replay_cmd": "%s %d" % (binary, n)})
+    run.extra["bounded_contract_on_path_normalisation"] = {
+        "paths": js["paths"], "distinct_normal_forms": js["distinct_normal_forms"], "exhaustive_within_bound": True,
+        "rule": "every path made of up to %d components from {., .., a, b}, relative and absolute. Checked on each: NormalizedPathBuf::new and cheap_canonicalize_path/normalize_path are idempotent; the number of leading `..` of a relative path is preserved; two paths with the same normal form have the same lexical resolution (same file)." % n,
+        "samples": js["samples"][:6]}
+    return {"findings": findings, "found": bool(findings), "note": None if findings else "%d paths, no disagreement" % js["paths"]}
+
+
+def run(run, replay=None):
+    lib = Source(run.repo, 'crates/erg_common/lib.rs')
+    pu = Source(run.repo, 'crates/erg_common/pathutil.rs')
+    for d in (lib.fn('normalize_path').describe(), pu.fn('new', impl=r'NormalizedPathBuf').describe()):
+        d["unit_label"] = d.get("what", "") + " (BOUNDED run-time-checked contract only)"
+        run.functions.append(d)
+    # textual anchor: NormalizedPathBuf::new is normalize_path(cheap_canonicalize_path(&path))
+    if 'normalize_path(cheap_canonicalize_path(&path))' not in pu.fn('new', impl=r'NormalizedPathBuf').text:
+        raise Undecided("NormalizedPathBuf::new is no longer normalize_path(cheap_canonicalize_path(&path))")
+    run.level = 'proof'
+    run.explorations.append(("path normalisation", lambda: explore_paths(run)))
+    unit = build_verus(run)
+    res = unit.run(rlimit=60)
+
+    def finder(f):
+        r = explore_paths(run)
+        fs = r.get("findings") or []
+        return dict(fs[0], found=True) if fs else {"found": False, "note": r.get("note")}
+    run.add_verus(unit, res, cex_finder=finder, expect_fail=tuple(run.extra.get('vacuity_probe_labels', ())))
+    run.bounded_note = "std::path itself (how a string is split into components, what push/pop do to the string), normalize_path (verbatim-prefix stripping, case folding) and NormalizedPathBuf::new are covered only by the bounded run-time-checked contract (coverage.bounded_contract_on_path_normalisation): every path of up to 8 (thorough 10) components over {., .., a, b}; not counted in the obligations"
+    run.assumptions.append("std::path as an abstract type: a path is the component sequence Components yields (a prefix only first, the root only first or right after a prefix, `.` only first); PathBuf::new/from/push/pop and next_back carry assumed contracts over that sequence; OsStr payloads are opaque ids. `..` directly under a bare prefix (drive-relative Windows paths) is treated like `..` at the root, as the code does.")
+    run.assumptions.append("BOUNDED part: exhaustive only up to the stated number of components over a 4-symbol alphabet; symlinks, case-insensitive file systems and Windows prefixes are not exercised.")
